@@ -65,6 +65,13 @@ ASSUMPTIONS = [
     "layer hands the router no sender address); for a relayed packet (sender != source) whose source and sender entries "
     "disagree on SE_POS_VALID-and-inside, a receiver outside the area forwards where Annex D discards (or vice versa)",
     "placements whose latitude would leave [-90, 90] degrees are not generated",
+    "forwarder states (round 6): traffic class with / without store-carry-forward x location table of the forwarder empty / "
+    "holding the relay as its only neighbour; in the state 'SCF and no neighbour' (step 10 of 10.3.11.3: BC forwarding packet "
+    "buffer, for which the code has a stand-in - GBC: one transmission, GAC: none) and at a greedy-forwarding local optimum "
+    "with SCF (annex E.2, C08's subject) only delivery, hop limit, 'at most one transmission' and the area-size control are "
+    "judged, not the Annex D choice",
+    "sequences of F evaluations (round 6): 2-4 consecutive evaluations on ONE Router instance, single-threaded; speeds of "
+    "source and relay over the whole signed 15-bit range, heading 0..3599",
     "sender histories (round 5): 1-3 earlier receptions from the packet's source (beacon / SHB / GBC / GAC, all transmitted "
     "by one real Router) before the packet under test, position-vector timestamps within +-5 s of the virtual clock in steps "
     "of 100 ms incl. equal timestamps (no 2^32 wrap-around: C20), first hop only (sender = source)",
@@ -750,6 +757,13 @@ def check_packets(ctx, cases):
             n, e = local_ne(c["lat0"], c["lon0"], la, lo)
             lines.append(f"Floc {shape} {a} {bb} {rat(cs[0])} {rat(cs[1])} {rat(n)} {rat(e)}")
         lines.append(f"size {shape} {a} {b} {c.get('max_rx', 10 ** 7)}")
+        if bc is not None and c.get("scf") and rl and shb is not None and not ego_in:
+            # forwarder outside with SCF whose only neighbour is the relay: whatever entry Annex D is keyed by, a non-area
+            # verdict ends in greedy forwarding, which keeps the packet back at a local optimum (C08's subject)
+            d_rl = math.hypot(*map(float, project(c["lat0"], c["lon0"], rl["lat"], rl["lon"])))
+            d_ego = math.hypot(*map(float, project(c["lat0"], c["lon0"], c["lat"], c["lon"])))
+            if not d_rl < d_ego - (1 + 0.01 * max(d_rl, d_ego)):
+                bc = "lo"
         recs.append((tag, acts, rhl, over, (so_pai, se_known, se_pai), bc))
     if ctx.model_ok and lines:
         out = ctx.model("Area", lines)
@@ -767,12 +781,15 @@ def check_packets(ctx, cases):
             if bc is None:
                 lines2.append("gbc3 0 source 1 1 0 0 none none")
                 continue
-            lines2.append(f"{tag['transport']}3 {1 if bc else 0} {key} {val[f[0][1]]} {rhl} {ov} 0 {se_src} {se_snd}")
+            lines2.append(f"{tag['transport']}3 {1 if bc is True else 0} {key} {val[f[0][1]]} {rhl} {ov} 0 {se_src} {se_snd}")
             if (ov == "1") != over:
                 ctx.mismatch("size.oracle_vs_model", tag, over, ov)
         out2 = ctx.model("Area", lines2)
-        for (tag, acts, rhl, over, _, _), l2, mo in zip(recs, lines2, out2):
+        for (tag, acts, rhl, over, _, bc), l2, mo in zip(recs, lines2, out2):
             if l2.endswith("none none") and l2.startswith("gbc3 0 source 1 1 0 0"):
+                continue
+            if bc == "lo" and mo == "[fwd-nonarea]" and acts == []:
+                ctx.cover("model_nonarea_at_scf_local_optimum_not_compared")
                 continue
             if "[" + " ".join(acts) + "]" != mo:
                 ctx.mismatch("packet.actions", tag, acts, mo)
@@ -1846,7 +1863,7 @@ def run(ctx):
             check_direct(ctx, sweep, "F.sweep")
             ctx.cover("azimuth_sweep_1deg", 360)
         check_fseq(ctx, [c for c in corp if c.get("kind") == "fseq"] + fseq_fixed() +
-                   [gen_fseq(rng) for _ in range(ctx.scale(500, 30000))])
+                   [gen_fseq(rng) for _ in range(ctx.scale(300, 30000))])
         check_packets(ctx, [gen_packet_case(rng) for _ in range(ctx.scale(2200, 120000))])
         check_source(ctx, ctx.scale(300, 20000))
         check_annexd(ctx, ctx.scale(600, 60000))
